@@ -365,6 +365,11 @@ func vfC09Check(env *vfc.Env, id string, path string, img []byte, orig []ref.Sca
 		}
 		res.Violate(id, sig, fmt.Sprintf("intact record %d at offset %d (first damaged record: %d) was never yielded by the sequential scan: %s", missed, orig[missed].Off, firstDamaged, why), replay)
 	}
+	// scan-and-copy (what GC does with a source file): every record a second scan yields is
+	// appended through the stream writer; the copy must be the reference encoding of exactly
+	// the intact records, every returned offset 256-aligned and where the record really is,
+	// and every copied record readable by position.
+	vfC09Copy(env, id, path, orig, intact, replay)
 	kind := cors[0].Kind
 	if len(cors) > 1 {
 		kind = "multi"
@@ -392,6 +397,84 @@ func vfC09Check(env *vfc.Env, id string, path string, img []byte, orig []ref.Sca
 	}
 	res.Seen("corrupt/" + kind + "/" + where)
 	res.Event("corrupt."+kind, 1)
+}
+
+var vfC09CopyN int
+
+func vfC09Copy(env *vfc.Env, id, path string, orig []ref.Scanned, intact []bool, replay interface{}) {
+	res := env.Res
+	vfC09CopyN++
+	if vfC09CopyN%8 != 0 { // sampled: one damaged image in eight is also copied
+		return
+	}
+	sr, err := newDataStreamReader(path, 1<<16)
+	if err != nil {
+		return
+	}
+	defer sr.Close()
+	cpath := path + ".copy"
+	defer os.Remove(cpath)
+	os.Remove(cpath)
+	w, err := GetStreamWriter(cpath, false)
+	if err != nil {
+		res.Inconc("open stream writer: " + err.Error())
+		return
+	}
+	byOff := map[uint32]int{}
+	for i, o := range orig {
+		byOff[o.Off] = i
+	}
+	type placed struct {
+		i   int
+		off uint32
+	}
+	var out []placed
+	var want []byte
+	for steps := 0; steps < len(orig)+4; steps++ {
+		rec, off, _, err := sr.Next()
+		if err != nil || rec == nil {
+			break
+		}
+		i, ok := byOff[off]
+		if !ok || !intact[i] {
+			continue // reported by the scan oracle above
+		}
+		noff, err := w.Append(rec)
+		if err != nil {
+			res.Violate(id, "c09:copy-append-error", fmt.Sprintf("appending scanned record %d to a copy: %v", i, err), replay)
+			w.Close()
+			return
+		}
+		if noff%256 != 0 || int(noff) != len(want) {
+			res.Violate(id, "c09:copy-offset", fmt.Sprintf("scanned record %d (original offset %d) was appended to the copy at offset %d, the writer reports offset %d (not aligned or not where the record is)", i, off, len(want), noff), replay)
+			w.Close()
+			return
+		}
+		out = append(out, placed{i, noff})
+		want = append(want, orig[i].Rec.Encode()...)
+	}
+	end := w.Offset()
+	w.Close()
+	res.Eval(1)
+	res.Event("copy.files", 1)
+	res.Event("copy.records", int64(len(out)))
+	got, _ := ioutil.ReadFile(cpath)
+	if int(end) != len(want) || !bytes.Equal(got, want) {
+		res.Violate(id, "c09:copy-bytes", fmt.Sprintf("copy of %d scanned records: writer says the file ends at %d, file has %d bytes, reference encoding has %d bytes (%s)", len(out), end, len(got), len(want), ref.DiffBytes(got, want)), replay)
+		return
+	}
+	for _, pl := range out {
+		wrec, err := readRecordAtPath(cpath, pl.off)
+		if err != nil {
+			res.Violate(id, "c09:copy-posread", fmt.Sprintf("copied record %d not readable at the offset %d returned by the writer: %v", pl.i, pl.off, err), replay)
+			return
+		}
+		if d := vfRecEq(wrec.rec, orig[pl.i].Rec, orig[pl.i].Rec.Flag); d != "" {
+			res.Violate(id, "c09:copy-posread-diff", fmt.Sprintf("copied record %d at %d: %s", pl.i, pl.off, d), replay)
+		}
+		cmem.DBRL.GetData.SubSizeAndCount(wrec.rec.Payload.CArray.Cap)
+		wrec.rec.Payload.Free()
+	}
 }
 
 func vfBodyMax() int64 {
